@@ -416,8 +416,8 @@ class Gen:
             if any(f["as_"] is not None for f in fs):
                 t = copy.deepcopy(d)
                 t["ident"] = d["ident"] + "TwAs"
-                t["rename"] = None
-                t["export_to"] = None
+                t["rename"] = d["rename"] if d["rename"] is not None else d["ident"]   # same TypeScript name (tags carry it)
+                t["export_to"] = "twins/%sTwAs.ts" % d["ident"]
                 for f in (t["fields"] if t["kind"] == "struct" else [f for v in t["variants"] for f in v["fields"]]):
                     if f["as_"] is not None:
                         f["ty"] = f["as_"]
@@ -427,8 +427,8 @@ class Gen:
             if any(f["inline"] for f in fs) and not any(f["as_"] is not None or f["type"] is not None for f in fs):
                 t = copy.deepcopy(d)
                 t["ident"] = d["ident"] + "TwIn"
-                t["rename"] = None
-                t["export_to"] = None
+                t["rename"] = d["rename"] if d["rename"] is not None else d["ident"]
+                t["export_to"] = "twins/%sTwIn.ts" % d["ident"]
                 for f in (t["fields"] if t["kind"] == "struct" else [f for v in t["variants"] for f in v["fields"]]):
                     f["inline"] = False
                 t["twin_of"], t["twin_kind"], t["no_ref"] = d["ident"], "inline", True
